@@ -325,9 +325,11 @@ fn run_ops(rng: &mut Rng, l: Limits, verb: &str, data: &[u8], drains: bool, out:
 fn piece_ops(rng: &mut Rng, l: Limits, verb: &str, data: &[u8], drains: bool, out: &mut Vec<String>) {
     let cuts = cut_points(rng, data, l);
     let mut prev = 0;
-    let fixed_method = if rng.chance(1, 4) { Some(*rng.pick(&METHODS)) } else { None };
+    // the production encoder is also fed through its `ZeroCopySink` impl (S = append_borrow, T = append_copy)
+    let methods: &[&str] = if verb == "enc" && l.prod { &["b", "c", "a", "r", "S", "T", "S", "T"] } else { &METHODS };
+    let fixed_method = if rng.chance(1, 4) { Some(*rng.pick(methods)) } else { None };
     for c in cuts.iter().copied().chain(std::iter::once(data.len())) {
-        let m = fixed_method.unwrap_or_else(|| *rng.pick(&METHODS));
+        let m = fixed_method.unwrap_or_else(|| *rng.pick(methods));
         out.push(format!("{} {} {}", verb, m, to_hex(&data[prev..c])));
         prev = c;
         if rng.chance(1, 40) {
@@ -419,6 +421,30 @@ fn dec_after_error_case(rng: &mut Rng, l: Limits, thorough: bool, out: &mut Vec<
 
 pub fn enc_case(rng: &mut Rng, _idx: u64, thorough: bool) -> Vec<String> {
     let mut ops = Vec::new();
+    if rng.chance(1, 6) {
+        // `find_stuff_sequence` on its own: FE / FD runs, pairs at every position incl. the last two bytes
+        let n = match rng.below(4) {
+            0 => rng.range(0, 3),
+            1 => rng.range(3, 40),
+            2 => rng.range(60, 70),
+            _ => rng.range(0, 300),
+        } as usize;
+        let mut v: Vec<u8> = (0..n).map(|_| *rng.pick(&[0xFEu8, 0xFE, 0xFD, 0x00, 0xFF, 0x41])).collect();
+        if n >= 2 && rng.chance(1, 2) {
+            for b in v.iter_mut() {
+                if *b == 0xFD {
+                    *b = 0x42;
+                }
+            }
+            if rng.chance(2, 3) {
+                let r = rng.below(n as u64 - 1) as usize;
+                let at = (*rng.pick(&[0usize, n - 2, n / 2, r])).min(n - 2);
+                v[at] = 0xFE;
+                v[at + 1] = 0xFD;
+            }
+        }
+        ops.push(format!("find {}", to_hex(&v)));
+    }
     if rng.below(100) < 6 {
         let data = prod_payload(rng, thorough);
         let drains = rng.chance(2, 3);
